@@ -1,6 +1,6 @@
 """C01 All VM configurations compute the same hash."""
 import astq
-from rules import aes, argon, cgsize, driver, dsinit, jit, spec, sshash, vmcfg
+from rules import aes, argon, cgsize, driver, dsinit, jit, spec, sshash, vmcfg, jitcross, portable
 
 LEVEL = 'other'
 TECHNIQUE = 'exhaustive flag-to-class dispatch check, frozen-table check of every dataset-address composition site, per-engine v1/v2 gate enumeration, abstract interpretation of the hand-written dataset-read fragments, sibling agreement rules of C04 / C08 / C10 / C12'
@@ -32,3 +32,10 @@ def run(ctx, R):
     jit.rule_lw_sib(ctx, R, 'x86', F)
     jit.rule_jitmask_x86(ctx, R)
     sshash.rule_immenc(ctx, R, F)
+    # every JIT back-end the library can select (x86, A64, RV64 scalar, RV64 vector) agrees with the interpreter on the immediate of ISUB_R and on the last-writer table
+    for _arch in ('a64', 'rv64', 'rvv'):
+        jitcross.rule_immneg(ctx, R, _arch)
+    jit.rule_tab_opc(ctx, R, 'rvv', F)
+    jit.rule_lw_sib(ctx, R, 'rvv', F)
+    portable.rule_int(ctx, R, astq.Facts(ctx, 'K1'))
+    driver.rule_bind_excl(ctx, R)
